@@ -153,16 +153,18 @@ impl Prop for C09 {
                     Caught::Panic(p) => return Outcome::fail(format!("parse panicked: {}\n{}", p, src)),
                     Caught::Budget(_) => return Outcome::fail(format!("parse ran out of fuel\n{}", src)),
                 };
-                if &crate::adapt::program(&tree) != prog {
-                    return Outcome::discard("render_mismatch:tree");
-                }
+                // a mis-parsed text (C02's subject) is still a parser-accepted program: run it, under the flat budget
+                let tree_differs = &crate::adapt::program(&tree) != prog;
                 let stdin_str = String::from_utf8_lossy(stdin).into_owned();
                 let m = model::run(prog, &stdin_str, Scoping::Dynamic, Limits { max_steps: 400, ..Limits::default() });
                 let valid_utf8 = std::str::from_utf8(stdin).is_ok();
-                let (fuel, model_terminated) = if m.judged() && valid_utf8 { (10 * m.steps + 100, true) } else { (3000, false) };
+                let (fuel, model_terminated) = if m.judged() && valid_utf8 && !tree_differs { (10 * m.steps + 100, true) } else { (3000, false) };
                 let mut o = run_tree(&tree, stdin, RLimits { exec_fuel: Some(fuel), alloc_cap: Some(4_000_000) }, &src, model_terminated);
                 o.nontrivial = !o.is_fail() && prog.stmt_count() >= 2 && m.trace.stmts >= 1;
                 o.labels.push("leg:wild".into());
+                if tree_differs {
+                    o.labels.push("parsed_tree_differs".into());
+                }
                 if prog.blocks.len() > 1 {
                     o.labels.push("several_top_level_blocks".into());
                 }
